@@ -218,26 +218,31 @@ func c12Snapshot(s *emulator.System) c12Snap {
 	return c12Snap{c.RK, c.PC, c.SP, c.RA, c.RX, c.RY, c.RD, c.RAl, c.RAh, c.RXl, c.RYl, c.RDBR, c.Flags(), c.E, c.Stopped, c.AllCycles}
 }
 
+// c12Prepare puts a System into the scenario's initial state (memory cleared, program placed).
+func c12Prepare(s *emulator.System, r c12Run) {
+	code, _, _ := c12Assemble(r.Prog, r.Start)
+	for i := range s.WRAM {
+		s.WRAM[i] = 0
+	}
+	for i := 0; i < 0x100; i++ {
+		s.ROM[i] = 0
+	}
+	for i, b := range code {
+		s.Bus.EaWrite(r.Start+uint32(i), b)
+	}
+	s.Logger = nil
+	s.CPU.OnPC = nil
+	c12SetState(s, r.Start)
+}
+
 // c12Exec runs one RunUntil scenario on the system under test and the manual twin loop.
 func c12Exec(w *c12World, r c12Run) (sig, what string) {
 	code, _, err := c12Assemble(r.Prog, r.Start)
 	if err != nil {
 		return "bad-case", err.Error()
 	}
-	for _, s := range []*emulator.System{w.sut, w.twin} {
-		for i := range s.WRAM {
-			s.WRAM[i] = 0
-		}
-		for i := 0; i < 0x100; i++ {
-			s.ROM[i] = 0
-		}
-		for i, b := range code {
-			s.Bus.EaWrite(r.Start+uint32(i), b)
-		}
-		s.Logger = nil
-		s.CPU.OnPC = nil
-		c12SetState(s, r.Start)
-	}
+	c12Prepare(w.sut, r)
+	c12Prepare(w.twin, r)
 	// twin: the loop the property describes, stepped by hand
 	var twinPre []c12Snap
 	twinFetch := map[uint32]int{}
